@@ -223,7 +223,26 @@ fn exercise_check(case: &Value, stats: &mut Stats) -> CheckResult {
         let _ = cur.is_opponent_king_attacked();
         unsafe { owlchess::moves::unmake_move_unchecked(&mut cur, *m, u) };
     }
+    // every two-file pawn-capture text, read against the position (candidate lists of the abbreviated-capture resolver)
+    for a in b'a'..=b'h' {
+        for d in [-1i8, 1] {
+            let t = a as i8 + d;
+            if (b'a' as i8..=b'h' as i8).contains(&t) {
+                let text = format!("{}{}", a as char, t as u8 as char);
+                let _ = Move::from_san(&text, &b);
+            }
+        }
+    }
     for m in l.iter() {
+        // all three output styles, written to a String and through width / precision flags
+        for st in [Style::San, Style::SanUtf8, Style::Uci] {
+            if let Ok(x) = m.styled(&b, st) {
+                let _ = (x.to_string(), format!("{:>12}|{:<3}|{:.2}", x, x, x));
+            }
+        }
+        if let Ok(x) = m.san(&b) {
+            let _ = (x.to_string(), x.styled(owlchess::moves::san::Style::Utf8).to_string(), format!("{:?}", x));
+        }
         let _ = m.styled(&b, Style::San).map(|s| s.to_string());
         let nb = b.make_move(*m).map_err(|e| Failure::new(format!("legal move refused: {}", e)))?;
         let _ = (nb.has_legal_moves(), nb.is_check());
@@ -367,9 +386,9 @@ pub fn property() -> Property {
         id: "C19",
         rule: "(a) maximise: simulated annealing with restarts (16 deterministic chains seeded from VERIF_SEED, relocate/retype/add/remove/swap \
                men) over valid positions (12 chains: valid by the reference rules; 4 chains: whatever the library's own gate accepts), maximising semilegal::gen_all_into(Vec) (safe sink, so an overflow is counted, not executed); \
-               oracle: count <= 256 for all five generators. (b) exercise: valid positions (19 sources + heavy sources: many queens, dense, \
+               oracle: count <= 256 for all five generators. (b) exercise: valid positions (20 sources + heavy sources: many queens, dense, \
                mutated maximal positions, longest-FEN positions) run through every generator and query (fixed-capacity lists, attack queries for 64 squares, \
-               make/unmake of every semilegal move, SAN of every legal move, FEN / Debug / pretty text of the position, which must equal the reference text, Display of every move); in the `checked` configuration (debug assertions + \
+               make/unmake of every semilegal move, all three text styles of every legal move (also through width / precision flags), all two-file capture texts read against the position, FEN / Debug / pretty text of the position, which must equal the reference text, Display of every move); in the `checked` configuration (debug assertions + \
                overflow checks) an out-of-range get_unchecked / push_unchecked / unreachable_unchecked / pointer offset panics or aborts \
                and is attributed to the case. (b') append_to_full_list: the *_into generators \
                appending to a caller-supplied 256-entry MoveList until it is full must refuse (panic) rather than write past it. \
